@@ -414,8 +414,17 @@ fn ordinary(h: &H, idx: u64, kp: &std::path::Path, scratch: &std::path::Path, rn
 fn batches(h: &H, idx: u64, kp: &std::path::Path, scratch: &std::path::Path, rng: &mut Rng) {
     let sizes: &[usize] = if h.quick() { &[24_999, 25_000, 25_001] } else { &[24_999, 25_000, 25_001, 50_000, 60_001] };
     let nlines = *rng.pick(sizes);
-    let (op_text, _) = OPERATIONS[rng.below(4)];
-    let text = gen_input(rng, nlines, Some(3));
+    let (mut op_text, _) = OPERATIONS[rng.below(4)];
+    let mut text = gen_input(rng, nlines, Some(3));
+    if nlines % 25_000 == 1 && rng.chance(0.4) {
+        // the tuple that is alone in the last internal batch fails in the first step of a pipeline
+        // whose last step works on the height: its line must read as in one big set
+        op_text = "geo:in | utm zone=32 | helmert translation=0,0,10";
+        let cut = text.trim_end().rfind('\n').map(|i| i + 1).unwrap_or(0);
+        text.truncate(cut);
+        text += "0.5 99 100\n";
+        h.class("batch-boundary/failing-tuple-alone-in-its-batch");
+    }
     let args: Vec<String> = vec![op_text.to_string(), "-d".into(), "4".into(), "-D".into(), "3".into()];
     let tuples = read_lines(&text, None, None);
     let want = match expected(op_text, false, false, &tuples) {
